@@ -70,11 +70,16 @@ fn run_config(cfg: &str, batch: &PathBuf) -> Result<BTreeMap<String, (Vec<String
         s
     });
     let t0 = Instant::now();
+    // a batch takes a second or two; the first runner that does not finish gets three minutes, later
+    // ones (re-evaluations of the same failure while it is minimised) thirty seconds
+    static TIMED_OUT_BEFORE: std::sync::atomic::AtomicBool = std::sync::atomic::AtomicBool::new(false);
+    let limit = if TIMED_OUT_BEFORE.load(std::sync::atomic::Ordering::Relaxed) { 30 } else { 180 };
     let status = loop {
         match child.try_wait() {
             Ok(Some(st)) => break Some(st),
             Ok(None) => {
-                if t0.elapsed() > Duration::from_secs(180) {
+                if t0.elapsed() > Duration::from_secs(limit) {
+                    TIMED_OUT_BEFORE.store(true, std::sync::atomic::Ordering::Relaxed);
                     let _ = child.kill();
                     let _ = child.wait();
                     break None;
